@@ -88,7 +88,7 @@ fn adversarial(rng: &mut Rng, g: &mut DecGen, note: &mut String) -> PicSpec {
                     }
                 }
             } else {
-                s.flavour = Flavour::StdPlus { umv_unlimited: false };
+                s.flavour = Flavour::StdPlus { umv_unlimited: false, layers: None };
                 s.height = 0;
                 s.width = s.width.max(4) / 4 * 4;
             }
@@ -145,7 +145,7 @@ fn adversarial(rng: &mut Rng, g: &mut DecGen, note: &mut String) -> PicSpec {
                 s.width = w;
                 s.height = h;
             } else {
-                s.flavour = Flavour::StdPlus { umv_unlimited: false };
+                s.flavour = Flavour::StdPlus { umv_unlimited: false, layers: None };
                 s.width = 2048;
                 s.height = 1020;
             }
@@ -173,11 +173,11 @@ fn adversarial(rng: &mut Rng, g: &mut DecGen, note: &mut String) -> PicSpec {
                 // the ramp itself as the next picture of this decoder
                 let w = *rng.pick(&[160u16, 320, 64, 16]);
                 let h = *rng.pick(&[16u16, 32, 48]);
-                g.fl = Flavour::StdPlus { umv_unlimited: false };
+                g.fl = Flavour::StdPlus { umv_unlimited: false, layers: None };
                 g.w = w;
                 g.h = h;
                 g.cfg.flavour = 4;
-                let mut ramp = gen_picture(rng, &g.cfg, Flavour::StdPlus { umv_unlimited: true }, PType::P, w, h, g.tr.wrapping_add(1));
+                let mut ramp = gen_picture(rng, &g.cfg, Flavour::StdPlus { umv_unlimited: true, layers: None }, PType::P, w, h, g.tr.wrapping_add(1));
                 ramp.mbs.clear();
                 let n = ramp.mb_count();
                 let style = rng.below(3) as u8;
@@ -276,7 +276,8 @@ pub fn gen_session(rng: &mut Rng, mix: &Mix) -> Session {
         } else {
             &[3, 4, 4]
         };
-        let cfg = GenCfg::draw(rng, flavours);
+        let mut cfg = GenCfg::draw(rng, flavours);
+        cfg.scal = opts & 2 != 0 && rng.chance(7, 8);
         let class = rng.weighted(&mix.size_classes) as u8;
         let (w, h) = gen_size(rng, class);
         let (fl, w, h) = flavour_for(rng, &cfg, w, h);
